@@ -9,7 +9,67 @@ CHECKS = {
  "C01": ("exploration", "reference-model differential monitor (exhaustive small scope + seeded random + end-to-end through the real handler chain)",
          "Every per-field list of length<=3 over a 14-entry alphabet is enumerated against every request value; random whole rules, policy lists and real HTTP requests are compared with an executable reading of the documented semantics. Exploration: says nothing about lists/requests outside what was generated.",
          "Trusted: the reference model in harness/c01/model.go; k8s RequestInfo resolver for the verb/resource derivation in the end-to-end part.", "DESIGN.md §2 C01"),
+ "C02": ("exploration", "boundary monitor on recorded wire events (client side vs recording stub upstream) with an independent model of Kubernetes impersonation rules",
+         "Generated identities, header families/casings/duplicates and scripted authorizer answers are sent through the real handler chain; what the stub upstream received is compared with the expected identity and checked for any client-supplied identity-bearing header. Held on the executions produced, nothing more.",
+         "Trusted: the harness' model of impersonation rules; net/http parsing on the stub side; scripted authenticator/authorizer stand in for the webhook ones (those are C12).", "DESIGN.md §2 C02"),
+ "C03": ("exploration", "boundary monitor over recorded histories (stub logs with one monotonic clock) with stable and single-change racing phases",
+         "Histories of spec updates and scripted health outcomes against the real controller, health checker and handler chain; every forwarded id must be at a pickable endpoint (before-or-after state for the one racing change), exactly once; disabled endpoints must log neither traffic nor probes.",
+         "Trusted: stub logs and the harness clock; 'racing' phases apply exactly one change, so before/after is a complete description; watchdog expiry is inconclusive.", "DESIGN.md §2 C03"),
+ "C04": ("exploration", "wire-level differential monitor (raw-socket client and stub upstream around the real handler chain)",
+         "Hand-built HTTP/1.1 requests and scripted upstream responses cross the gateway; method, decoded path, query multimap, body hash, end-to-end headers, status and response bytes are compared on both sides with an explicit allow-list of hop normalisations; gateway-terminated requests must be well-formed Status answers seen by no stub.",
+         "Trusted: the allow-list of RFC 7230 / net/http normalisations documented in DESIGN.md; requests answered by the generic k8s filters before gateway code are excluded and counted.", "DESIGN.md §2 C04"),
+ "C05": ("exploration", "shadow-counter monitor + porcupine linearizability on short histories + end-to-end slot conservation, under injected schedule points",
+         "A sound under-approximating in-flight counter per (cluster, schema, epoch) watches concurrent acquire/release/reconfigure workloads on the real limiter with yields injected at every statement of the anchored files; short histories are checked against a non-deterministic semaphore model; every way a proxied request can end is driven through the chain and slots are counted back at quiescence.",
+         "Trusted: increment-after-acquire / decrement-before-release ordering of the shadow counter; porcupine; schedule-point instrumentation is semantically neutral. Race-detector pass is auxiliary.", "DESIGN.md §2 C05"),
+ "C06": ("exploration", "event-log monitor with sound one-sided window inequalities on one monotonic clock",
+         "(t_call, t_return, result) of every TryAcquire is recorded; all windows between events must admit <= burst + qps*T, and after an observed refusal + measured idle time at least min(burst, floor(qps*t)) are admitted; no-op syncs must not refill. Scheduling delay can only hide, never invent, a violation.",
+         "Trusted: the process monotonic clock; float32 qps rounding slack documented in the check.", "DESIGN.md §2 C06"),
+ "C07": ("exploration", "invariant monitor on the exported quota calculation + quiescent-sum invariants on the real server under sequential and concurrent honest reports",
+         "Arithmetic invariants of the statement are asserted on generated (total, allocated, level, current, used, clients) tuples; the real rateLimiter with scripted leadership answers histories of honest reports and limit changes and the recorded sums are checked after every batch.",
+         "Trusted: the 'honest report' generator mirrors remote_allocation.go; leadership and lister are scripted through verif hooks.", "DESIGN.md §2 C07"),
+ "C08": ("exploration", "quiescent accounting invariants + porcupine linearizability (non-deterministic model) + sound window bound for token grants, under injected schedule points",
+         "Concurrent reports/removals on the real global flow controls with yields at every statement; DebugInfo accounting must be exact at quiescence, accepted sums never exceed max, decreases always apply, stale ids are refused; token grants are bounded over every window.",
+         "Trusted: DebugInfo as the observation of the running total; porcupine; monotonic clock.", "DESIGN.md §2 C08"),
+ "C09": ("exploration", "fault-sequence monitor: scripted limiter replies through fake-clientset reactors, effective-limit probes and shadow counters on the real gateway-side limiter",
+         "Scripted reply/fault sequences (any int32 quota, omitted items, errors, stale replies, readiness flaps) are fed to the real remote flow-control wrappers; after each step the effective limit is measured by probing, and in the asynchronous count strategy in-flight/admission logs are bounded against the global limit.",
+         "Trusted: reply scripts keep the schema type (ill-typed replies are outside the quantifier); VerifReconcileOnce runs the same body as the 2 s ticker.", "DESIGN.md §2 C09"),
+ "C10": ("exploration", "invariant monitor after every controller event over generated create/update/delete histories, incl. real TLS handshakes",
+         "After every processed event the resolution table, ownership of names, stopped contexts and the TLS material handed out per SNI name are compared with a model of who owns which name.",
+         "Trusted: the ownership model written from the statement; events are delivered through VerifSync in orders the real queue can produce.", "DESIGN.md §2 C10"),
+ "C11": ("exploration", "differential monitor between two live gateways (lived-through history vs fresh with latest objects)",
+         "For each generated history of versions, failures and re-deliveries, a gateway that processed the history is compared observable by observable with a fresh gateway given only the latest objects.",
+         "Trusted: the list of compared observables is what the statement enumerates; client connection settings excluded as stated.", "DESIGN.md §2 C11"),
+ "C12": ("exploration", "boundary monitor over request histories with per-cluster distinguishable answer tables",
+         "Same token / same attributes are sent to different hosts in every order with per-cluster scripted answers; each decision must equal the addressed cluster's table entry (or fail/deny) and every review must be received by that cluster's stub; alias moves change who owns a host.",
+         "Trusted: answer tables are fixed during a run so cached answers need no wall-clock reasoning.", "DESIGN.md §2 C12"),
+ "C13": ("exploration", "reference-model differential (FNV-1a) + boundary monitor on stub limiter servers + state-unchanged monitor on the real server under scripted leadership histories",
+         "Shard mapping compared with an independent implementation on random names and N; gateway-side calls must arrive at the server the leader table names; a non-leader must refuse naming the leader and leave the store untouched; loss discards state.",
+         "Trusted: independent FNV-1a; scripted elector reproduces the callbacks of the real one.", "DESIGN.md §2 C13"),
+ "C14": ("exploration", "counting monitor over barrier-separated batches + porcupine linearizability against fetch-and-increment, under injected schedule points",
+         "Concurrent pickers on the real EndpointPicker with yields at every statement of Pop; per-batch counts must be floor/ceil (subset policies) or within the documented constant (others); short histories are linearizable against fetch-and-increment mod k.",
+         "Trusted: ready set is stable inside a batch (scripted health); porcupine.", "DESIGN.md §2 C14"),
+ "C15": ("exploration", "boundary monitor over stream histories with control streams (promptness judged relative to live controls)",
+         "Streams are opened to endpoints that are then removed at chosen phases; removed targets must end (client and stub side) while control streams stay alive; no new request or probe reaches a removed target.",
+         "Trusted: stub disconnect logs; the 5 s promptness bound is 2-3 orders above observed latency and a dead control stream makes the history inconclusive.", "DESIGN.md §2 C15"),
+ "C16": ("exploration", "totality monitor under recover + apply-what-was-accepted monitor on real consumers + must-reject list",
+         "Structure-aware and mutated UpstreamCluster objects go through the real validation and admission plugin; every accepted object is applied to a fresh real gateway controller (create and update path) and a real limiter server; demonstrated breaking classes must be rejected.",
+         "Trusted: 'breaks a consumer' is demonstrated on a hand-made instance before a class enters the must-reject list.", "DESIGN.md §2 C16"),
+ "C17": ("exploration", "differential monitor raw rule vs admitted rule through the real admission plugin (exhaustive small scope + random)",
+         "Every per-field list of length<=3 over the alphabet and random whole rules are normalised by the real Admit(); raw and stored rules must match the same probe requests; Admit is idempotent.",
+         "Trusted: probe sets are built to separate the entries of each rule; matching is the real RuleMatches (itself checked by C01).", "DESIGN.md §2 C17"),
+ "C18": ("exploration", "state monitor over generated instance-lifecycle histories on the real server with deterministic heartbeat times",
+         "Histories of join/report/acquire/silence/cleanup/return; after both cleanup kinds ran, nothing of a dead instance may remain and freed capacity must be grantable; instances with fresh heartbeats keep everything.",
+         "Trusted: heartbeat times are set through a verif hook instead of sleeping; asynchronous deletion is awaited with a watchdog.", "DESIGN.md §2 C18"),
+ "C19": ("fault_enumeration", "fault injection at every API call position x fault kind (incl. crash before/after) on the real store over a shared object tracker, then reload and compare",
+         "For each generated operation sequence every API call position is enumerated with every fault kind; after the fault a new store loads from the shared tracker and is compared with what was acknowledged.",
+         "Trusted: client-go ObjectTracker as the API; a crash = kill switch + sentinel panic; sequences are sampled, positions and kinds are exhaustive per sequence.", "DESIGN.md §2 C19"),
+ "C20": ("exploration", "reference-convention monitor on the real API path (rest.BeforeCreate/BeforeUpdate with the registered strategies)",
+         "Generated (stored, submitted) pairs differing in any subset of metadata/spec/status fields are pushed through the strategies actually registered; status, spec, labels and generation are compared with the conventions in the statement.",
+         "Trusted: k8s.io/apiserver BeforeCreate/BeforeUpdate is what the generic registry Store calls.", "DESIGN.md §2 C20"),
 }
+
+# checks that are finished, reviewed and silent on the (repaired) unchanged tree
+READY = {"C01"}
 
 NOT_BUILT = "check not built yet in this round (work in progress; see DESIGN.md §6 build order)"
 
@@ -19,7 +79,7 @@ def main():
     checks, na = [], []
     for p in props:
         pid = p["id"]
-        if pid in CHECKS and os.path.isdir(os.path.join(ROOT, "harness", pid.lower())):
+        if pid in CHECKS and pid in READY and os.path.isdir(os.path.join(ROOT, "harness", pid.lower())):
             level, tech, text, note, ref = CHECKS[pid]
             checks.append({
                 "property_id": pid,
